@@ -91,6 +91,16 @@ pub fn profile(name: &str) -> Option<Profile> {
             wide_timing: true,
             ..base
         },
+        "c06" => Profile {
+            name: "c06",
+            oracles: Oracles { c06: true, ..Default::default() },
+            gen_cfg: GenCfg {
+                w_maintenance: 22,
+                ..GenCfg::default()
+            },
+            rebuild_checks: true,
+            ..base
+        },
         "all" => Profile {
             name: "all",
             oracles: Oracles::all(),
